@@ -174,6 +174,448 @@ func c09NoCall(o *out, dir, recv, fn, coqName, name string) {
 	o.f("Definition %s : bool := %v. (* %s:%s.%s makes no call to %s *)\n", coqName, !found, dir, recv, fn, name)
 }
 
+// ---------------------------------------------------------------------------------------------------------------------
+// Error-flow translation: a Go function body (or the body of its k-th `go func(){...}()` literal) is translated into a
+// value of the small statement language ef_stmt (declared in the generated file itself): calls whose error result
+// is kept or dropped, assignments between error variables, if/else on `err == nil` / `err != nil` (any other condition is
+// an opaque boolean the environment decides), defer (closure or call), return (naked or with a value) and named results.
+// Everything that does not touch an error variable and is not a listed effect is skipped. Loops, switches, labels and
+// branches are not supported (broken tie). The model interprets the program (C09/Upload.v exec_fn), so a reordered Close,
+// an error overwritten in a deferred closure, a dropped `if err == nil` guard or a CloseWithError(nil) changes the theorem.
+type efSpec struct {
+	dir, recv, name string
+	goLit           int  // -1: the function body; k >= 0: body of the k-th go-statement function literal
+	anyLit          bool // with goLit = k: the k-th function literal of any kind (a returned handler closure)
+	coqName         string
+	effects         map[string]int // printed callee -> effect code (99 = unknown effect whose error result is used)
+}
+
+type efTr struct {
+	p      *pkgInfo
+	sp     efSpec
+	vars   map[interface{}]int
+	names  []string
+	opaque []string
+	err    error
+	fresh  int
+}
+
+// error variables are recognised by name: err, err2, cerr, closeErr ... (not the package `errors`, not exported sentinels)
+func efIsErrName(n string) bool {
+	if n == "" || n == "errors" || (n[0] >= 'A' && n[0] <= 'Z') {
+		return false
+	}
+	return strings.Contains(strings.ToLower(n), "err")
+}
+
+func (t *efTr) varOf(id *ast.Ident) int {
+	var key interface{} = id.Name
+	if id.Obj != nil {
+		key = id.Obj
+	}
+	if v, ok := t.vars[key]; ok {
+		return v
+	}
+	v := len(t.names)
+	t.vars[key] = v
+	t.names = append(t.names, id.Name)
+	return v
+}
+
+func (t *efTr) failf(format string, a ...interface{}) string {
+	if t.err == nil {
+		t.err = fmt.Errorf(format, a...)
+	}
+	return "[]"
+}
+
+// error-valued expression, or "" when the expression is not one the language tracks
+func (t *efTr) eexpr(e ast.Expr) string {
+	switch x := e.(type) {
+	case *ast.ParenExpr:
+		return t.eexpr(x.X)
+	case *ast.Ident:
+		if x.Name == "nil" {
+			return "ENil"
+		}
+		if efIsErrName(x.Name) {
+			return fmt.Sprintf("EVar %d", t.varOf(x))
+		}
+	}
+	return ""
+}
+
+func (t *efTr) cond(e ast.Expr) string {
+	switch x := e.(type) {
+	case *ast.ParenExpr:
+		return t.cond(x.X)
+	case *ast.UnaryExpr:
+		if x.Op == token.NOT {
+			return "(CNot " + t.cond(x.X) + ")"
+		}
+	case *ast.BinaryExpr:
+		switch x.Op {
+		case token.LAND:
+			return "(CAnd " + t.cond(x.X) + " " + t.cond(x.Y) + ")"
+		case token.LOR:
+			return "(COr " + t.cond(x.X) + " " + t.cond(x.Y) + ")"
+		case token.EQL, token.NEQ:
+			a, b := t.eexpr(x.X), t.eexpr(x.Y)
+			if a == "ENil" && strings.HasPrefix(b, "EVar") {
+				a, b = b, a
+			}
+			if strings.HasPrefix(a, "EVar") && b == "ENil" {
+				if x.Op == token.EQL {
+					return "(CNil " + a[5:] + ")"
+				}
+				return "(CNotNil " + a[5:] + ")"
+			}
+			// comparison with a sentinel error (ErrFoo / pkg.ErrFoo): equal implies non-nil; which sentinel is opaque
+			sentinel := func(e ast.Expr) bool {
+				n := printNode(t.p.fset, e)
+				if k := strings.LastIndex(n, "."); k >= 0 {
+					n = n[k+1:]
+				}
+				return strings.HasPrefix(n, "Err") || n == "EOF"
+			}
+			if a == "" && strings.HasPrefix(b, "EVar") && sentinel(x.X) {
+				a, b = b, a
+				x = &ast.BinaryExpr{X: x.Y, Op: x.Op, Y: x.X}
+			}
+			if strings.HasPrefix(a, "EVar") && b == "" && sentinel(x.Y) {
+				c := "(CAnd (CNotNil " + a[5:] + ") " + t.opaqueOf(e) + ")"
+				if x.Op == token.NEQ {
+					return "(CNot " + c + ")"
+				}
+				return c
+			}
+		}
+	}
+	return t.opaqueOf(e)
+}
+
+func (t *efTr) opaqueOf(e ast.Expr) string {
+	txt := strings.Join(strings.Fields(printNode(t.p.fset, e)), " ")
+	for i, o := range t.opaque {
+		if o == txt {
+			return fmt.Sprintf("(COpaque %d)", i)
+		}
+	}
+	t.opaque = append(t.opaque, txt)
+	return fmt.Sprintf("(COpaque %d)", len(t.opaque)-1)
+}
+
+func (t *efTr) call(dst int, ce *ast.CallExpr) string {
+	callee := printNode(t.p.fset, ce.Fun)
+	code, ok := t.sp.effects[callee]
+	if !ok {
+		if dst < 0 {
+			return "" // not an effect the model tracks and its error (if any) is not kept
+		}
+		if strings.HasPrefix(callee, "errors.New") || strings.HasPrefix(callee, "fmt.Errorf") {
+			return fmt.Sprintf("EfSet %d (EConst 1)", dst)
+		}
+		code = 99
+	}
+	var args []string
+	for _, a := range ce.Args {
+		if s := t.eexpr(a); s != "" {
+			args = append(args, s)
+		}
+	}
+	d := fmt.Sprintf("%d", dst)
+	if dst < 0 {
+		d = "(-1)"
+	}
+	return fmt.Sprintf("EfCall %s %d [%s]", d, code, strings.Join(args, "; "))
+}
+
+func (t *efTr) block(list []ast.Stmt) string {
+	var out []string
+	for _, s := range list {
+		out = append(out, t.stmt(s)...)
+	}
+	return "[" + strings.Join(out, "; ") + "]"
+}
+
+func (t *efTr) stmt(s ast.Stmt) []string {
+	switch x := s.(type) {
+	case *ast.BlockStmt:
+		var out []string
+		for _, y := range x.List {
+			out = append(out, t.stmt(y)...)
+		}
+		return out
+	case *ast.AssignStmt:
+		dst := -1
+		for _, l := range x.Lhs {
+			if id, ok := l.(*ast.Ident); ok && efIsErrName(id.Name) {
+				dst = t.varOf(id)
+			}
+		}
+		if len(x.Rhs) == 1 {
+			if ce, ok := x.Rhs[0].(*ast.CallExpr); ok {
+				if c := t.call(dst, ce); c != "" {
+					return []string{c}
+				}
+				return nil
+			}
+		}
+		if dst >= 0 && len(x.Lhs) == 1 && len(x.Rhs) == 1 {
+			if e := t.eexpr(x.Rhs[0]); e != "" {
+				return []string{fmt.Sprintf("EfSet %d (%s)", dst, e)}
+			}
+			return []string{fmt.Sprintf("EfSet %d (EConst 1)", dst)}
+		}
+		if dst >= 0 {
+			t.failf("unsupported assignment to an error variable: %s", printNode(t.p.fset, s))
+		}
+		return nil
+	case *ast.ExprStmt:
+		if ce, ok := x.X.(*ast.CallExpr); ok {
+			if c := t.call(-1, ce); c != "" {
+				return []string{c}
+			}
+		}
+		return nil
+	case *ast.IfStmt:
+		var out []string
+		if x.Init != nil {
+			out = append(out, t.stmt(x.Init)...)
+		}
+		c := t.cond(x.Cond)
+		th := t.block(x.Body.List)
+		el := "[]"
+		switch e := x.Else.(type) {
+		case *ast.BlockStmt:
+			el = t.block(e.List)
+		case *ast.IfStmt:
+			el = "[" + strings.Join(t.stmt(e), "; ") + "]"
+		}
+		if th == "[]" && el == "[]" && strings.HasPrefix(c, "(COpaque") {
+			return out // a branch without any tracked effect
+		}
+		return append(out, fmt.Sprintf("EfIf %s %s %s", c, th, el))
+	case *ast.ReturnStmt:
+		if len(x.Results) == 0 {
+			return []string{"EfReturn None"}
+		}
+		last := x.Results[len(x.Results)-1]
+		if e := t.eexpr(last); e != "" {
+			return []string{fmt.Sprintf("EfReturn (Some (%s))", e)}
+		}
+		if ce, ok := last.(*ast.CallExpr); ok {
+			t.fresh++
+			tmp := len(t.names)
+			t.names = append(t.names, fmt.Sprintf("ret%d", t.fresh))
+			if c := t.call(tmp, ce); c != "" {
+				return []string{c, fmt.Sprintf("EfReturn (Some (EVar %d))", tmp)}
+			}
+		}
+		return []string{"EfReturn (Some (EConst 1))"}
+	case *ast.DeferStmt:
+		if fl, ok := x.Call.Fun.(*ast.FuncLit); ok {
+			body := t.block(fl.Body.List)
+			if strings.Contains(body, "EfDefer") {
+				t.failf("defer inside a deferred closure")
+			}
+			return []string{"EfDefer " + body}
+		}
+		if c := t.call(-1, x.Call); c != "" {
+			return []string{"EfDefer [" + c + "]"}
+		}
+		return nil
+	case *ast.GoStmt:
+		return nil // translated on its own (goLit)
+	case *ast.DeclStmt, *ast.IncDecStmt, *ast.EmptyStmt:
+		return nil
+	}
+	t.failf("unsupported statement in an error-flow function: %T", s)
+	return nil
+}
+
+func c09ErrFlow(o *out, sp efSpec) {
+	p, fd := findFunc(sp.dir, sp.recv, sp.name)
+	if fd == nil {
+		o.brokenDef(sp.coqName, "function "+sp.dir+":"+sp.recv+"."+sp.name+" not found")
+		return
+	}
+	t := &efTr{p: p, sp: sp, vars: map[interface{}]int{}}
+	body := fd.Body
+	named := -1
+	if sp.goLit >= 0 {
+		k := 0
+		var lit *ast.FuncLit
+		ast.Inspect(fd.Body, func(n ast.Node) bool {
+			if fl, ok := n.(*ast.FuncLit); ok && sp.anyLit {
+				if k == sp.goLit && lit == nil {
+					lit = fl
+				}
+				k++
+			}
+			if gs, ok := n.(*ast.GoStmt); ok && !sp.anyLit {
+				if fl, ok := gs.Call.Fun.(*ast.FuncLit); ok {
+					if k == sp.goLit && lit == nil {
+						lit = fl
+					}
+					k++
+				}
+			}
+			return true
+		})
+		if lit == nil {
+			o.brokenDef(sp.coqName, fmt.Sprintf("no go-statement function literal #%d in %s", sp.goLit, sp.name))
+			return
+		}
+		body = lit.Body
+	} else if fd.Type.Results != nil {
+		for _, f := range fd.Type.Results.List {
+			if id, ok := f.Type.(*ast.Ident); ok && id.Name == "error" {
+				for _, n := range f.Names {
+					named = t.varOf(n)
+				}
+			}
+		}
+	}
+	prog := t.block(body.List)
+	if t.err != nil {
+		o.brokenDef(sp.coqName, t.err.Error())
+		return
+	}
+	var vn []string
+	for i, n := range t.names {
+		vn = append(vn, fmt.Sprintf("%d=%s", i, n))
+	}
+	var en []string
+	for k, v := range sp.effects {
+		en = append(en, fmt.Sprintf("%d=%s", v, k))
+	}
+	sort.Strings(en)
+	var on []string
+	for i, c := range t.opaque {
+		on = append(on, fmt.Sprintf("%d=`%s`", i, c))
+	}
+	where := sp.dir + ":" + sp.recv + "." + sp.name
+	if sp.goLit >= 0 {
+		where += fmt.Sprintf(" (function literal #%d)", sp.goLit)
+	}
+	o.f("(* error flow of %s ; variables %s ; effects %s ; opaque conditions %s *)\n", where, strings.Join(vn, " "), strings.Join(en, " "), strings.Join(on, " "))
+	o.f("Definition %s : list ef_stmt :=\n  %s.\n", sp.coqName, prog)
+	if named < 0 {
+		o.f("Definition %s_result : Z := (-2). (* unnamed error result: deferred closures cannot change it *)\n", sp.coqName)
+	} else {
+		o.f("Definition %s_result : Z := %d. (* named error result *)\n", sp.coqName, named)
+	}
+}
+
+const efPreamble = `(* the statement language of the error-flow translation (see c09ErrFlow in gen_c09.go) *)
+Inductive ef_expr := ENil | EVar (v : Z) | EConst (k : Z).
+Inductive ef_cond := CNil (v : Z) | CNotNil (v : Z) | CAnd (a b : ef_cond) | COr (a b : ef_cond) | CNot (a : ef_cond) | COpaque (k : Z).
+Inductive ef_stmt :=
+| EfCall (dst fn : Z) (args : list ef_expr)
+| EfSet (dst : Z) (e : ef_expr)
+| EfIf (c : ef_cond) (th el : list ef_stmt)
+| EfDefer (body : list ef_stmt)
+| EfReturn (e : option ef_expr).
+`
+
+// c09SwitchKinds: a function whose body is one `switch <tag> { case consts...: return ctor(...), ... }` over string
+// constants: emits the decision "which constructor does this encoding select" as a Gallina function of the tag, the
+// constructors being mapped to small integers through classes (a result that is not a listed constructor call maps to -1).
+func c09SwitchKinds(o *out, dir, name, coqName string, classes map[string]int) {
+	p, fd := findFunc(dir, "", name)
+	if fd == nil {
+		o.brokenDef(coqName, "function "+dir+":."+name+" not found")
+		return
+	}
+	var sw *ast.SwitchStmt
+	for _, s := range fd.Body.List {
+		if x, ok := s.(*ast.SwitchStmt); ok && sw == nil {
+			sw = x
+		}
+	}
+	if sw == nil || sw.Tag == nil || len(fd.Body.List) != 1 {
+		o.brokenDef(coqName, name+" is no longer a single switch over the encoding")
+		return
+	}
+	kindOf := func(body []ast.Stmt) (int, string, bool) {
+		if len(body) != 1 {
+			return 0, "", false
+		}
+		rs, ok := body[0].(*ast.ReturnStmt)
+		if !ok || len(rs.Results) == 0 {
+			return 0, "", false
+		}
+		txt := printNode(p.fset, rs.Results[0])
+		var callee string
+		switch r := rs.Results[0].(type) {
+		case *ast.CallExpr:
+			callee = printNode(p.fset, r.Fun)
+		case *ast.CompositeLit:
+			callee = printNode(p.fset, r.Type)
+		default:
+			callee = txt
+		}
+		if k, ok := classes[callee]; ok {
+			return k, callee, true
+		}
+		return -1, callee, true
+	}
+	res := ""
+	var arms []string
+	var clauses []*ast.CaseClause
+	for _, c := range sw.Body.List {
+		cc := c.(*ast.CaseClause)
+		if cc.List == nil {
+			k, callee, ok := kindOf(cc.Body)
+			if !ok {
+				o.brokenDef(coqName, "default arm of "+name+" is not a single return")
+				return
+			}
+			res = fmt.Sprintf("(%d)", k)
+			arms = append(arms, "default→"+callee)
+		} else {
+			clauses = append(clauses, cc)
+		}
+	}
+	if res == "" {
+		o.brokenDef(coqName, name+" has no default arm")
+		return
+	}
+	for i := len(clauses) - 1; i >= 0; i-- {
+		cc := clauses[i]
+		k, callee, ok := kindOf(cc.Body)
+		if !ok {
+			o.brokenDef(coqName, "an arm of "+name+" is not a single return")
+			return
+		}
+		var conds, labels []string
+		for _, ce := range cc.List {
+			var lit string
+			switch v := ce.(type) {
+			case *ast.BasicLit:
+				lit, _ = strconv.Unquote(v.Value)
+			case *ast.Ident:
+				ke, _, _, _ := findConstExpr(dir, v.Name)
+				bl, ok := ke.(*ast.BasicLit)
+				if !ok || bl.Kind != token.STRING {
+					o.brokenDef(coqName, "case label "+v.Name+" is not a string constant")
+					return
+				}
+				lit, _ = strconv.Unquote(bl.Value)
+			default:
+				o.brokenDef(coqName, "unsupported case label "+printNode(p.fset, ce))
+				return
+			}
+			conds = append(conds, "bytes_eqb enc "+bytesLit([]byte(lit)))
+			labels = append(labels, strconv.Quote(lit))
+		}
+		res = fmt.Sprintf("(if %s then %d else %s)", strings.Join(conds, " || "), k, res)
+		arms = append([]string{strings.Join(labels, ",") + "→" + callee}, arms...)
+	}
+	o.f("Definition %s (enc : list Z) : Z :=\n  %s.\n(* from %s:.%s : %s *)\n", coqName, res, dir, name, strings.Join(arms, " ; "))
+}
+
 func init() {
 	generators["C09_gen"] = func(o *out) {
 		// ------------------------------------------------------------ APK merkle hasher
@@ -367,5 +809,45 @@ func init() {
 			fingerprint(ch, "", fn)
 		}
 		fingerprint("server", "Server", "serveSign")
+
+		// ------------------------------------------------------------ error propagation of the upload path
+		o.f("\n%s\n", efPreamble)
+		// effects: 0 setupCompression  1 io.Copy(compr, r)  2 compr.Close
+		c09ErrFlow(o, efSpec{dir: ch, name: "compress", goLit: -1, coqName: "compress_prog",
+			effects: map[string]int{"setupCompression": 0, "io.Copy": 1, "compr.Close": 2}})
+		// effects: 0 compress  1 plain.Close  2 pw.CloseWithError(arg)  3 pw.Close
+		c09ErrFlow(o, efSpec{dir: ch, name: "CompressRequest", goLit: 0, coqName: "creq_goroutine_prog",
+			effects: map[string]int{"compress": 0, "plain.Close": 1, "pw.CloseWithError": 2, "pw.Close": 3}})
+		// the outer function: what it returns (no tracked effects: the wiring is checked by the statement facts below)
+		c09ErrFlow(o, efSpec{dir: ch, name: "CompressRequest", goLit: -1, coqName: "creq_outer_prog", effects: map[string]int{}})
+		o.hasStmt(ch, "", "CompressRequest", "pr, pw := io.Pipe()", "creq_uses_pipe")
+		o.hasStmt(ch, "", "CompressRequest", "request.Body = alsoClose{ReadCloser: pr, also: plain}", "creq_body_is_pipe_reader")
+		o.hasStmt(ch, "", "CompressRequest", "plain := &readBlocker{Reader: request.Body}", "creq_source_is_request_body")
+		o.hasStmt(ch, "", "CompressRequest", "request.Header.Set(contentEncoding, encoding)", "creq_sets_content_encoding")
+		// effects: 0 decompress  1 request.Body replaced by the decoder (ioutil.NopCloser(r))
+		c09ErrFlow(o, efSpec{dir: ch, name: "DecompressRequest", goLit: -1, coqName: "dreq_prog", effects: map[string]int{"decompress": 0, "ioutil.NopCloser": 1, "io.NopCloser": 1}})
+		o.hasStmt(ch, "", "DecompressRequest", "request.Body = ioutil.NopCloser(r)", "dreq_body_is_decoder")
+		// effects: 0 DecompressRequest  1 http.Error  2 next.ServeHTTP  3 wrapped.Close
+		c09ErrFlow(o, efSpec{dir: ch, name: "Middleware", goLit: 0, anyLit: true, coqName: "middleware_prog",
+			effects: map[string]int{"DecompressRequest": 0, "http.Error": 1, "next.ServeHTTP": 2, "wrapped.Close": 3}})
+		// which codec an encoding selects on either side: 0 pass-through, 1 gzip, 2 snappy-framed, -1 refused
+		c09SwitchKinds(o, ch, "setupCompression", "setup_kind", map[string]int{"nopCloseWriter": 0, "gzip.NewWriterLevel": 1, "snappy.NewBufferedWriter": 2})
+		c09SwitchKinds(o, ch, "decompress", "decompress_kind", map[string]int{"ioutil.NopCloser": 0, "io.NopCloser": 0, "gzip.NewReader": 1, "snappy.NewReader": 2})
+		// the client: buildRequest's error flow. effects: 0 http.NewRequest 1 request.URL.Parse 2 cli.tokenSource.Token 3 bodyFile.GetReader 4 compresshttp.CompressRequest
+		c09ErrFlow(o, efSpec{dir: rc, recv: "client", name: "buildRequest", goLit: -1, coqName: "br_prog",
+			effects: map[string]int{"http.NewRequest": 0, "request.URL.Parse": 1, "cli.tokenSource.Token": 2, "bodyFile.GetReader": 3, "compresshttp.CompressRequest": 4}})
+		o.hasStmt(rc, "client", "buildRequest", "request.Body = io.NopCloser(stream)", "br_body_is_stream")
+		o.hasStmt(rc, "client", "doRequest", "if err != nil { return nil, err }", "dr_build_error_returns")
+		o.hasStmt(rc, "client", "doRequest", "err = httperror.FromResponse(response)", "dr_status_becomes_error")
+		// every pipe-backed transform hands its producer's error to the pipe: argument class 0 = the producer call itself
+		c09CallArgs(o, "signers/zipbased", "zipTransformer", "GetReader", "zip_producer_close", "w.CloseWithError", 0, map[string]int{"zipslicer.ZipToTar(t.f, w)": 0})
+		c09CallArgs(o, "signers/msi", "msiTransformer", "GetReader", "msi_producer_close", "w.CloseWithError", 0, map[string]int{"authenticode.MsiToTar(t.cdf, w)": 0})
+		c09CallArgs(o, "signers/macho", "transformer", "GetReader", "macho_producer_close", "w.CloseWithError", 0, map[string]int{"t.send(w)": 0})
+		c09CallArgs(o, "signers/dmg", "transformer", "GetReader", "dmg_producer_close", "w.CloseWithError", 0, map[string]int{"t.send(w)": 0})
+		// effects: 0 tw.WriteHeader 1 io.CopyN
+		c09ErrFlow(o, efSpec{dir: zs, name: "tarAddStream", goLit: -1, coqName: "taraddstream_prog", effects: map[string]int{"tw.WriteHeader": 0, "io.CopyN": 1}})
+		fingerprint(ch, "readBlocker", "Read")
+		fingerprint(ch, "readBlocker", "Close")
+		fingerprint(ch, "alsoClose", "Close")
 	}
 }
